@@ -8,6 +8,7 @@ import Proofs.BackGlobal
 import Proofs.Counted
 import Proofs.NoIdleGlobal
 import Proofs.EarliestFit
+import Proofs.DepMile
 import Properties.C09
 /-! driver command `J {"op":"sched", …}`: run the scheduler model on one scenario projection -/
 namespace SPD
@@ -159,6 +160,16 @@ def runSched (j : Json) : Json :=
         usageOf (σ.led.get r i).usage t == usageOf (σ.led.get (sel.headD 0) i).usage t))))
   let fwds := (List.range e.tasks.size).filter (fun t => fwdEffB e t && (σ.tst t).scheduled && (σ.tst t).forward)
   let depPairs := fwds.flatMap (fun t => ((e.taskD t).allDeps.filter (fun dp => (e.taskD dp.target).leaf)).map (fun dp => (t, dp)))
+  -- milestones the loop placed (done), forward, without own start: all edges
+  let miles := (List.range e.tasks.size).filter (fun t =>
+    let d := e.taskD t
+    d.leaf && (d.milestone || d.effort == 0) && !d.startProvided && (σ.tst t).done && (σ.tst t).forward)
+  let milePairs := miles.flatMap (fun t => (e.taskD t).allDeps.map (fun dp => (t, dp)))
+  let mileFail := milePairs.filter (fun (td : Nat × Dep) =>
+    let dt := if td.2.onstart then (σ.tst td.2.target).start else (σ.tst td.2.target).stop
+    match dt, (σ.tst td.1).start with
+    | some d, some v => !((σ.tst td.2.target).scheduled && decide (d + td.2.gap ≤ v))
+    | _, _ => !(σ.tst td.2.target).scheduled)
   let depPairsAll := fwds.flatMap (fun t => (e.taskD t).allDeps.map (fun dp => (t, dp)))
   let depFailAll := depPairsAll.filter (fun (td : Nat × Dep) =>
     let dt := if td.2.onstart then (σ.tst td.2.target).start else (σ.tst td.2.target).stop
@@ -244,7 +255,8 @@ def runSched (j : Json) : Json :=
                          ("teams_scheduled", Json.num (JsonNumber.fromNat teams.length)), ("team_exact_fail", Json.num (JsonNumber.fromNat teamFail.length)),
                          ("fwd_scheduled", Json.num (JsonNumber.fromNat fwds.length)), ("dep_edges", Json.num (JsonNumber.fromNat depPairs.length)),
                          ("dep_fail", Json.num (JsonNumber.fromNat depFail.length)),
-                         ("dep_edges_all", Json.num (JsonNumber.fromNat depPairsAll.length)), ("dep_all_fail", Json.num (JsonNumber.fromNat depFailAll.length))]
+                         ("dep_edges_all", Json.num (JsonNumber.fromNat depPairsAll.length)), ("dep_all_fail", Json.num (JsonNumber.fromNat depFailAll.length)),
+                         ("milestone_edges", Json.num (JsonNumber.fromNat milePairs.length)), ("milestone_fail", Json.num (JsonNumber.fromNat mileFail.length))]
   Json.mkObj [("end", Json.num (JsonNumber.fromInt (Elab.abs p e.stop))), ("wf", Json.bool (wfCheck e && treeCheck e)), ("size", Json.num (JsonNumber.fromInt e.size)), ("thm", thm),
               ("tasks", Json.arr tasks.toArray), ("ledger", Json.arr led.toArray), ("counters", Json.arr cnt.toArray),
               ("warnings", Json.arr (σ.warnings.map Json.str).toArray)]
